@@ -40,6 +40,14 @@ func regoStringList(values []string) string {
 	return strings.Join(quoted, ",")
 }
 
+// regoStringSet renders profile values as a Rego set; `{ }` would be an empty object, the empty set is written set().
+func regoStringSet(values []string) string {
+	if len(values) == 0 {
+		return "set()"
+	}
+	return "{ " + regoStringList(values) + "}"
+}
+
 // jsonStringList renders profile values as the text of a JSON array of strings (for trace values).
 func jsonStringList(values []string) string {
 	return "[" + regoStringList(values) + "]"
